@@ -1159,11 +1159,9 @@ def regenerate_readers(ast=None):
 
 # ------------------------------------------------------------------------------------ T9
 # small step functions without a read: conditions on fields of the object and of the selected
-# command, assignments, helper calls, early returns, a `switch (self->cmd_type)`: Gen/Steps.lean.
-# `Proofs/Steps.lean` proves the model's functions equal to them (ghost checks aside).
+# command, assignments, helper calls, early returns, a `switch (self->cmd_type)`: Gen/Steps/<Module>.lean.
+# `Proofs/Steps/<Module>.lean` proves the model's functions equal to them (ghost checks aside).
 
-GEN_STEPS = os.path.join(lib.LEAN, "CatVerif/Gen/Steps.lean")
-EXPECTED_STEPS = os.path.join(lib.LEAN, "CatVerif/Gen/Steps.expected.lean")
 STEPS = ["process_io_write_wait", "unsolicited_process_io_write_wait", "process_hold_state", "command_not_found", "command_found"]
 CMDFLAG = {"only_test": "onlyTest", "implicit_write": "implicitWrite"}
 CMDPTR = {"run": "hasRun", "read": "hasRead", "write": "hasWrite", "test": "hasTest"}
@@ -1970,7 +1968,7 @@ def t13(ast):
 # three more small functions, recognised statement by statement: `read_cmd_char` (the only caller of
 # io->read; case folding outside argument collection), `hold_exit`, `start_print_cmd_list`.
 
-def t14(ast):
+def t14_read(ast):
     out = []
     # read_cmd_char
     _, body = find_fn(ast, "read_cmd_char")
@@ -2009,6 +2007,11 @@ def t14(ast):
                "    let s : St := { s with currentChar := b };     -- io->read stored the byte through its argument\n"
                "    let s : St := (if s.state != .parseCommandArgs then { s with currentChar := toUpper s.currentChar } else s);\n"
                "    (s, true)")
+    return out
+
+
+def t14_hold(ast):
+    out = []
     # hold_exit
     _, body = find_fn(ast, "hold_exit")
     sts = [x for x in body.get("inner", []) if not is_noise(x) and x.get("kind") != "DeclStmt"]
@@ -2043,6 +2046,11 @@ def t14(ast):
                "def hold_exit (s : St) (status : Int) : St × Int :=\n"
                "  if s.holdFlag == false then (s, Gen.CAT_STATUS_ERROR_NOT_HOLD)\n"
                "  else ({ s with holdExitStatus := if status = Gen.CAT_STATUS_OK then 1 else -1 }, Gen.CAT_STATUS_OK)")
+    return out
+
+
+def t14_list(ast):
+    out = []
     # start_print_cmd_list via the CPS translator (void function)
     VOID_FN_MODE[0] = True
     try:
@@ -2052,6 +2060,10 @@ def t14(ast):
     finally:
         VOID_FN_MODE[0] = False
     return out
+
+
+def t14(ast):
+    return t14_read(ast) + t14_hold(ast) + t14_list(ast)
 
 
 # ------------------------------------------------------------------------------------ T15
@@ -2647,9 +2659,9 @@ def t20(ast):
     return out
 
 
-def t9(ast):
+def t9_steps(ast, names):
     defs = []
-    for name in STEPS:
+    for name in names:
         _, body = find_fn(ast, name)
         sts = [x for x in body.get("inner", []) if not is_noise(x)]
         if not sts or sts[-1].get("kind") != "ReturnStmt":
@@ -2657,39 +2669,70 @@ def t9(ast):
         _check_ret(sts[-1])
         defs.append("/-- `%s` of src/cat.c -/\ndef %s (D : Desc) (s : St) : St × Int :=\n  (%s, Gen.CAT_STATUS_BUSY)"
                     % (name, name, _step_seq(sts, "    ")))
-    for w in WRITERS:
-        defs.append(_writer(ast, *w))
-    defs += t11(ast)
-    defs += t12(ast)
-    defs += t13(ast)
-    defs += t14(ast)
-    defs += t15(ast)
-    defs += t16(ast)
-    defs += t17(ast)
-    defs += t18(ast)
-    defs += t19(ast)
-    defs += t20(ast)
-    hdr = ("/-\n  GENERATED by tools/translate.py from small step functions of src/cat.c (T9 - T20). Do not edit.\n"
-           "  `Proofs/Steps.lean` proves the model's functions equal to these.\n-/\n"
-           "import CatVerif.Model.Fsm\nnamespace Cat.Gen\nopen Cat St\nset_option linter.unusedVariables false\n\n")
-    return hdr + "\n\n".join(defs) + "\n\nend Cat.Gen\n"
+    return defs
+
+
+# Gen/Steps/<Module>.lean: one generated file per group of functions, so that a function whose shape is no longer recognised
+# (or whose text changed and whose equality proof no longer checks) touches only the properties built on that group.
+# (module, translator items, property ids, producer)
+STEP_MODULES = [
+    ("Wait", "T9", ("C11",), lambda ast: t9_steps(ast, ["process_io_write_wait", "unsolicited_process_io_write_wait"])),
+    ("Hold", "T9/T14", ("C14",), lambda ast: t9_steps(ast, ["process_hold_state"]) + t14_hold(ast)),
+    ("Found", "T9", ("C02", "C09"), lambda ast: t9_steps(ast, ["command_not_found", "command_found"])),
+    ("Output", "T10", ("C11", "C12"), lambda ast: [_writer(ast, *w) for w in WRITERS]),
+    ("Resolve", "T11", ("C02", "C09"), lambda ast: t11(ast)[1:]),
+    ("Collect", "T11", ("C06",), lambda ast: t11(ast)[:1]),
+    ("ByFsm", "T12", ("C07", "C10", "C19"), lambda ast: t12(ast)),
+    ("Ring", "T13", ("C13",), lambda ast: t13(ast)),
+    ("ReadChar", "T14", ("C01", "C12"), lambda ast: t14_read(ast)),
+    ("Lanes", "T15", ("C02",), lambda ast: t15(ast)),
+    ("Format", "T16/T17", ("C07", "C08", "C19"), lambda ast: t16(ast) + t17(ast)),
+    ("ParseArgs", "T18", ("C04", "C05", "C08"), lambda ast: t18(ast)),
+    ("Loops", "T19", ("C06", "C10", "C14"), lambda ast: t19(ast)),
+    ("CmdList", "T14/T20", ("C10", "C19"), lambda ast: t14_list(ast) + t20(ast)),
+]
+GEN_STEPS_DIR = os.path.join(lib.LEAN, "CatVerif/Gen/Steps")
+
+
+def step_module_props():
+    return {"steps." + m: set(props) for m, _, props, _ in STEP_MODULES}
 
 
 def regenerate_steps(ast=None):
+    rep = {}
     try:
-        txt = t9(ast or load_ast())
-        status = "translated"
+        ast = ast or load_ast()
     except Exception as ex:
-        if not os.path.exists(EXPECTED_STEPS):
-            return {"T9": "failed: " + repr(ex)[:200]}
-        txt = open(EXPECTED_STEPS).read()
-        status = "fallback to expected text: " + repr(ex)[:200]
-    with lib.Lock("gen"):
-        old = open(GEN_STEPS).read() if os.path.exists(GEN_STEPS) else ""
-        if old != txt:
-            with open(GEN_STEPS, "w") as f:
-                f.write(txt)
-    return {"T9": status}
+        ast = None
+        err = repr(ex)[:200]
+    os.makedirs(GEN_STEPS_DIR, exist_ok=True)
+    for mod, items, _props, produce in STEP_MODULES:
+        path = os.path.join(GEN_STEPS_DIR, mod + ".lean")
+        exp = os.path.join(GEN_STEPS_DIR, mod + ".expected.lean")
+        try:
+            if ast is None:
+                raise Unrecognised(err)
+            defs = produce(ast)
+            hdr = ("/-\n  GENERATED by tools/translate.py from functions of src/cat.c (translator item %s). Do not edit.\n"
+                   "  `Proofs/Steps/%s.lean` proves the model's functions equal to these.\n-/\n"
+                   "import CatVerif.Model.Fsm\nnamespace Cat.Gen\nopen Cat St\nset_option linter.unusedVariables false\n\n" % (items, mod))
+            txt = hdr + "\n\n".join(defs) + "\n\nend Cat.Gen\n"
+            status = "translated"
+        except Exception as ex:
+            VOID_FN_MODE[0] = False
+            RETMAP[0] = None
+            if not os.path.exists(exp):
+                rep["steps." + mod] = "failed: " + repr(ex)[:200]
+                continue
+            txt = open(exp).read()
+            status = "fallback to expected text: " + repr(ex)[:200]
+        with lib.Lock("gen"):
+            old = open(path).read() if os.path.exists(path) else ""
+            if old != txt:
+                with open(path, "w") as f:
+                    f.write(txt)
+        rep["steps." + mod] = status
+    return rep
 
 
 def expected_defs():
